@@ -6,6 +6,26 @@ from gast import PRELUDE_ADTS
 _ADTS = dict(PRELUDE_ADTS)
 
 
+STRICT_PARAMS = {}
+
+
+def set_strict_params(table):
+    """{top-level function name: [is parameter i certainly evaluated by the body?]} for the module under analysis.
+    An argument only counts as a strict use when the callee is known and uses that parameter strictly
+    (FINDINGS.md F1b: arguments of inlined functions are evaluated by need)."""
+    global STRICT_PARAMS
+    STRICT_PARAMS = table
+
+
+def _call_strict(name, fn, args):
+    if strict_occ(name, fn):
+        return True
+    sp = STRICT_PARAMS.get(fn.name) if fn.K == "Var" else None
+    if sp is None:
+        return False
+    return any(i < len(sp) and sp[i] and strict_occ(name, a) for i, a in enumerate(args))
+
+
 def set_adts(adt_table):
     """ADT declarations of the module under analysis (needed to know which patterns are refutable)."""
     global _ADTS
@@ -180,7 +200,9 @@ def strict_occ(name, e):
     if k == "Trace":
         return strict_occ(name, e.body)
     if k == "Backpass":
-        return strict_occ(name, e.fn) or any(strict_occ(name, a) for a in e.args)
+        return _call_strict(name, e.fn, e.args)
+    if k == "Call":
+        return _call_strict(name, e.fn, e.args)
     return any(strict_occ(name, c) for c in children(e))
 
 
